@@ -309,6 +309,11 @@ def gen_cases(tier):
         m1, m2 = R.sha256(b"left"), R.sha256(b"right")
         add("tagged-hash", "tag+msg+msg", [tag, hx(m1), hx(m2)], ("data", R.tagged_hash(tag.encode(), m1 + m2)))
         add("tagged-hash", "tag-only", [tag], ("reject",))
+        # long messages given in several parts (the concatenation is echoed on stderr): totals around and far beyond 4096 bytes
+        if tag == tags[0]:
+            for nparts, plen in ((2, 2047), (2, 2048), (2, 2049), (16, 300), (10, 700), (3, 7000), (64, 520)):
+                parts = [filler(0, plen)[::-1] if i % 2 else filler(0, plen) for i in range(nparts)]
+                add("tagged-hash", "tag+long-multipart-msg", [tag] + [hx(x) for x in parts], ("data", R.tagged_hash(tag.encode(), b"".join(parts))))
     # ---- secp256k1 transforms
     ds = [1, 2, 3, 0x1111111111111111111111111111111111111111111111111111111111111111, R.N - 1, int.from_bytes(R.sha256(b"d5"), "big") % R.N,
           int.from_bytes(R.sha256(b"d6"), "big") % R.N, (R.N - 1) // 2]
